@@ -101,6 +101,13 @@ def run(tier):
     log(f"[{PID}] design level: {sum(m.distinct for m in mcs.values())} states, all interleavings safe and live; "
         f"{len(jobs)} schedules to force on the binary")
     res = core.pmap(lambda ij: run_scheduled(ij[1][0], ij[1][1], workdir, ij[0], ij[1][2]), list(enumerate(jobs)), jobs=8)
+    # a run in which a hook waited out its bound, or which did not finish, is repeated once on its own: only what
+    # happens again (on a machine that is not busy with the other runs) is evidence
+    def suspicious(r):
+        return r["timed_out"] or r["code"] != 0 or any(e["value"] == "TIMEOUT" for e in r["events"])
+    for i, r in enumerate(res):
+        if suspicious(r):
+            res[i] = run_scheduled(jobs[i][0], jobs[i][1], workdir, 10000 + i, jobs[i][2])
     ref = {m: next(r for (mm, s, d), r in zip(jobs, res) if mm == m and not s) for m in ("wrap", "stdin")}
     events = []
     for i, ((mode, sched, delay), r) in enumerate(zip(jobs, res)):
